@@ -235,7 +235,7 @@ func cmdConcX(args []string) error {
 		// `hookaido mcp serve --db` or a backup tool may. A request that cannot write must not be acknowledged: every 202 / 200
 		// stands for messages that are in the file (C01). Both enqueue paths: unlimited queue (autocommit INSERT) and limited
 		// queue (BEGIN IMMEDIATE), ingress fan-out and Admin publish.
-		if backend == "sqlite" {
+		if backend == "sqlite" && round%8 == 1 { // each case waits out the store's busy budget several times: one round in eight
 			for _, depth := range []int{0, 50} {
 				name := fmt.Sprintf("cx-fl-%d-%d.db", round, depth)
 				path := filepath.Join(dir, name)
